@@ -194,6 +194,7 @@ func main() {
 		for _, fn := range fns {
 			res, tr := e.translate(fn)
 			fmt.Printf("==== %s  err=%q notes=%v unsup=%v\n", res.Key, res.Err, res.Notes, res.Unsup)
+			fmt.Printf("     writeset=%v\n", sortedKeys(e.writeSet(fn)))
 			if tr != nil {
 				fmt.Print(tr.il.dump())
 			}
